@@ -69,8 +69,58 @@ def _check_batch(ctx, r, v, d, last, lam, gam, kind):
                          model={"adv": out["adv"], "ret": out["ret"]})
 
 
+def check_end_to_end(ctx, idx):
+    """GAE of a rollout collected by the real collect_rollout, with the episode ends established
+    independently (Lean replay of the finite MDP from the recorded actions), the recorded rewards
+    and values, and the bootstrap value of the post-rollout state."""
+    import jax
+    from jax import random as jr
+    from lerax.algorithm import A2C, PPO
+    from lerax.wrapper import TimeLimit
+    from .common.collect import clip_desc, collect, impl_rows, policy_desc, replay_env, slice_env
+    from .common.tabular import enc_state, random_ac_policy, random_tabular
+    rng = ctx.rng
+    env0 = random_tabular(rng, p_term=0.15, p_trunc=0.1)
+    n = int(rng.integers(2, 6))
+    env, desc = TimeLimit(env0, n), [{"w": "timeLimit", "n": n}]
+    policy = random_ac_policy(rng, env0)
+    E, T = int(rng.choice([1, 2])), int(rng.integers(6, 20))
+    gamma, lam = float(rng.choice([0.9, 0.99, 1.0])), float(rng.choice([0.0, 0.8, 0.95, 1.0]))
+    algo = (PPO(num_envs=E, num_steps=T, gamma=gamma, gae_lambda=lam, num_batches=1, num_epochs=1)
+            if idx % 2 == 0 else A2C(num_envs=E, num_steps=T, gamma=gamma, gae_lambda=lam))
+    pre, post, buf, _ = collect(algo, env, policy, jr.key(int(rng.integers(0, 2**31))))
+    tab, pol = env0.describe(), policy_desc(policy)
+    for e in range(E):
+        pre_e, post_e, buf_e = slice_env(pre, e, E), slice_env(post, e, E), slice_env(buf, e, E)
+        rows = impl_rows(buf_e, T)
+        model_rows, failures, _ = replay_env(ctx, tab, desc, pol, gamma, clip_desc(env), int(env0.T.shape[2]),
+                                             enc_state(pre_e.env_state), int(pre_e.policy_state.count), rows,
+                                             enc_state(post_e.env_state), int(post_e.policy_state.count))
+        if any(f in ("obs", "next_env_state") for _, f in failures):
+            ctx.note("end-to-end GAE skipped: the rollout's state sequence could not be replayed")
+            continue
+        true_dones = [mr["done"] for mr in model_rows]
+        last = float(policy.value(post_e.policy_state, env.observation(post_e.env_state, key=jr.key(0)))[1])
+        rew = [r["reward"] for r in rows]
+        val = [r["value"] for r in rows]
+        adv, ret = np.asarray(buf_e.advantages, np.float64), np.asarray(buf_e.returns, np.float64)
+        out = ctx.drv.call("gae", gamma=gamma, lam=lam, rewards=rew, values=val, dones=true_dones, last=last,
+                           impl={"adv": adv, "ret": ret}, tol=ctx.tol(16.0))
+        case = {"kind": "collected-rollout", "algo": type(algo).__name__, "time_limit": n, "T": T, "gamma": gamma,
+                "lam": lam, "rewards": rew, "values": val, "episode_ends": true_dones, "bootstrap": last,
+                "recorded_dones": [r["done"] for r in rows], "impl_adv": adv, "impl_ret": ret}
+        ctx.case({"k": "e2e", "idx": idx, "e": e, "rew": rew}, any(true_dones), sample=case if idx == 0 else None)
+        ctx.count("end-to-end:rollouts")
+        ctx.count("end-to-end:episode-ends", int(sum(true_dones)))
+        if not out["phi"]:
+            ctx.phi_fail("gae_of_collected_rollout_cut_at_true_episode_ends",
+                         {**case, "reference_adv": out["adv"], "reference_ret": out["ret"]}, key="gae:end-to-end")
+
+
 def run(ctx):
     rng = ctx.rng
+    for i in range(ctx.budget(4, 16)):
+        check_end_to_end(ctx, i)
     # (1) every done pattern for short rollouts
     maxT = ctx.budget(6, 10)
     for T in range(1, maxT + 1):
